@@ -10,7 +10,8 @@
    every message specification the import of the export is exactly the rows of that specification
    (C17_export_import_spec); the rows determine the specification (C17_rows_determine_spec), so the re-imported
    specification IS the exported one: it packs and unpacks identically and exports to the identical document
-   (C17_reexport_identical). That the library and the model agree on the exported document and on the imported spec is
+   (C17_reexport_identical). The shipped specifications (regenerated on every run): each one the format can express - all
+   but the EMV composite - exports to a document whose import is the specification itself (C17_shipped_specs). That the library and the model agree on the exported document and on the imported spec is
    the correspondence check (generated and mutated documents) and the oracle (re-imported spec equal, byte-identical
    re-export, identical pack/unpack behaviour). *)
 From Coq Require Import Strings.String.
@@ -100,6 +101,28 @@ Proof.
   assert (S = S') by (apply spec_rows_inj; change (spec_rows S) with ((0, (kind_name (ps_kind (ms_mti S)), SFPrim (ms_mti S))) :: (1, (Q "Bitmap", SFBitmap (ms_bm S))) :: imported (ms_fields S)); congruence). subst S'. split; [reflexivity|exact Hd].
 Qed.
 Print Assumptions C17_reexport_identical.
+
+(* the shipped specifications (Gen/ShippedSpecs.v, regenerated from the library's spec objects on every run): each one
+   the JSON format can express - all but the EMV composite, whose BER-TLV tag encoding has no name in the format - is
+   exported to a document whose import is the specification itself (evaluated in the kernel on the five specifications) *)
+From Iso Require Import Gen.ShippedSpecs Proofs.CoherenceCheck.
+Definition shipped_rt (t : String.string) : Prop :=
+  match spec_of_string t with
+  | Some MS => match export_spec MS with Ok d => import_spec d = Ok (spec_rows MS) | _ => True end
+  | None => False
+  end.
+Definition shipped_exports (t : String.string) : bool :=
+  match spec_of_string t with Some MS => is_ok (export_spec MS) | None => false end.
+Theorem C17_shipped_specs : forall name t, In (name, t) shipped_specs -> shipped_rt t.
+Proof.
+  intros name t [H|[H|[H|[H|[H|[]]]]]]; inversion H; subst; vm_compute; try reflexivity; exact I.
+Qed.
+Print Assumptions C17_shipped_specs.
+Theorem C17_shipped_specs_exportable :
+  map (fun nt => (fst nt, shipped_exports (snd nt))) shipped_specs =
+  [("Spec87", true); ("Spec87ASCII", true); ("Spec87Hex", true); ("examples", true); ("emv", false)]%string.
+Proof. vm_compute. reflexivity. Qed.
+Print Assumptions C17_shipped_specs_exportable.
 
 (* the hypotheses are satisfiable: s17 is expressible, of depth 3 *)
 Example C17_ex_expressible : expressible s17 /\ depth s17 = 3%nat.
